@@ -913,9 +913,16 @@ def setitem(I, base, idx, val):
         if isinstance(c, DConc):
             k = I.pyconst(idx)
             if k is MISSING:
-                if c.get(idx) is None and c.entries:
-                    raise Unsupported("concrete dict store with a symbolic key that is not syntactically one of its keys")
                 k = idx
+                if c.get(idx) is None and c.entries:
+                    # symbolic key: case split over the existing keys it may be equal to, else a new entry
+                    if not hasattr(idx, "t"):
+                        raise Unsupported("concrete dict store with a symbolic key of kind %s" % idx.tag)
+                    for kk, _ in c.entries:
+                        kkv = kk if isinstance(kk, Val) else I.const(kk)
+                        if kkv.tag == idx.tag and I.ctx.branch(I.eq(idx, kkv)):
+                            k = kk
+                            break
             I.set_container(base.ref, c.set(k, val))
             return
         kt = to_term(idx, c.kshape)
